@@ -838,7 +838,7 @@ func cmdCheck(args []string) int {
 		fatal2("kernel-leg violations did not recur when their histories were re-executed and nothing else was found: %v", kernelUnreproduced)
 	}
 	for c, msg := range unreproduced {
-		if !seen[c] {
+		if !seen[c] && exit == 0 {
 			// a race was reported by the detector but no run reproduces it: harness trouble, nothing is claimed
 			fatal2("%s; no other run of this class reproduced either: nothing reported", msg)
 		}
